@@ -167,7 +167,9 @@ impl HBox {
             list,
             ..Default::default()
         };
-        let mut total_glue = common::Glue::default();
+        // Total stretch and shrink for each order of infinity (TeX.2021.650).
+        let mut total_stretch = [common::Scaled::ZERO; 4];
+        let mut total_shrink = [common::Scaled::ZERO; 4];
         let mut natural_width = common::Scaled::ZERO;
         for elem in &hbox.list {
             // TeX.2021.658
@@ -218,35 +220,8 @@ impl HBox {
                 }
                 H::Glue(glue) => {
                     // TeX.2021.656
-                    use std::cmp::Ordering::*;
-                    match total_glue.shrink_order.cmp(&glue.value.shrink_order) {
-                        Less => {
-                            total_glue.shrink = glue.value.shrink;
-                            total_glue.shrink_order = glue.value.shrink_order;
-                        }
-                        Equal => {
-                            total_glue.shrink += glue.value.shrink;
-                        }
-                        Greater => {
-                            // Do nothing.
-                            // This glue has smaller order than some other glue in the box, so will
-                            // not be used for shrinking.
-                        }
-                    }
-                    match total_glue.stretch_order.cmp(&glue.value.stretch_order) {
-                        Less => {
-                            total_glue.stretch = glue.value.stretch;
-                            total_glue.stretch_order = glue.value.stretch_order;
-                        }
-                        Equal => {
-                            total_glue.stretch += glue.value.stretch;
-                        }
-                        Greater => {
-                            // Do nothing.
-                            // This glue has smaller order than some other glue in the box, so will
-                            // not be used for stretching.
-                        }
-                    }
+                    total_shrink[glue.value.shrink_order as usize] += glue.value.shrink;
+                    total_stretch[glue.value.stretch_order as usize] += glue.value.stretch;
                     // TODO: implement leader support.
                     [glue.value.width, common::Scaled::ZERO, common::Scaled::ZERO]
                 }
@@ -271,6 +246,24 @@ impl HBox {
             PackWidth::Additional(additional) => natural_width + additional,
         };
         let excess = hbox.width - natural_width;
+        // TeX.2021.659 and TeX.2021.665: the order is the highest one with a non-zero total.
+        let dominating = |totals: &[common::Scaled; 4]| -> (common::Scaled, GlueOrder) {
+            for order in [GlueOrder::Filll, GlueOrder::Fill, GlueOrder::Fil] {
+                if totals[order as usize] != common::Scaled::ZERO {
+                    return (totals[order as usize], order);
+                }
+            }
+            (totals[GlueOrder::Normal as usize], GlueOrder::Normal)
+        };
+        let (stretch, stretch_order) = dominating(&total_stretch);
+        let (shrink, shrink_order) = dominating(&total_shrink);
+        let total_glue = common::Glue {
+            width: common::Scaled::ZERO,
+            stretch,
+            stretch_order,
+            shrink,
+            shrink_order,
+        };
         use std::cmp::Ordering::*;
         match excess.cmp(&common::Scaled::ZERO) {
             Less => {
